@@ -195,7 +195,7 @@ def run_d_case(c, res):
         res.count(f"D.{kind}.{rv}")
         m = mech(ar, *c["r_pos"])
         if rv == "in" and delivered != 1:
-            res.violation(f"C07:inside-receiver-not-delivered[{kind}][{shape}]{m}" if delivered == 0 else f"C07:delivered-{delivered}-times[{kind}]",
+            res.violation(f"C07:inside-receiver-not-delivered[{kind}][{shape}]{m}" if delivered == 0 else f"C07:delivered-more-than-once[{kind}]",
                           f"receiver inside ({c['rho']}), indications {delivered}", c)
         if rv == "out" and delivered != 0:
             res.violation(f"C07:outside-receiver-delivered[{kind}][{shape}]{m}", f"receiver outside ({c['rho']}), indications {delivered}", c)
